@@ -438,7 +438,7 @@ func (o *OvsdbServer) processMonitors(id uuid.UUID, update database.Update) {
 // monitored table: the requested ones plus the row's uuid, or all of them if
 // the request, or its columns, are omitted
 func selectColumns(request *ovsdb.MonitorRequest) []string {
-	if len(request.Columns) == 0 {
+	if request == nil || len(request.Columns) == 0 {
 		return nil
 	}
 	return append([]string{"_uuid"}, request.Columns...)
